@@ -31,7 +31,7 @@ pub const ALPHA_SRC: &str = "(def (Report (volatile acked 0) (rtt 0)) (ctl 10) (
         (when true (:= Report.acked (+ Report.acked Ack.bytes_acked)) (:= Report.rtt Flow.rtt_sample_us) (:= loc 5) (fallthrough))
         (when (> Micros 3000) (report) (:= Micros 0))";
 
-pub const PROGS: [(&str, &str); 9] = [
+pub const PROGS: [(&str, &str); 13] = [
     ("alpha", ALPHA_SRC),
     ("beta", "(def (Report (volatile loss 0) (volatile sacked 0) (volatile inflight 0)) (thresh 100))
         (when true (:= Report.loss Ack.lost_pkts_sample) (:= Report.inflight Flow.packets_in_flight) (fallthrough))
@@ -50,13 +50,18 @@ pub const PROGS: [(&str, &str); 9] = [
     ("epsilon", "(def (Report (volatile m2 0)) (volatile c 30) (b 20) (a 10) (ctl 9))
         (when true (:= Report.m2 (+ a b)) (fallthrough))
         (when (> Micros c) (report) (:= Micros 0))"),
+    // more than ten programs in one runtime
+    ("eta", "(def (Report (z1 0))) (when true (:= Report.z1 1) (report))"),
+    ("theta", "(def (Report (z2 0)) (t 2)) (when true (:= Report.z2 t) (report))"),
+    ("iota", "(def (Report (volatile z3 0))) (when (> Micros 100) (:= Report.z3 3) (report) (:= Micros 0))"),
+    ("kappa", "(def (Report (z4 0)) (kk 4) (Kk 5)) (when true (:= Report.z4 (+ kk Kk)) (report))"),
 ];
 
 /// names whose lookup result is part of a program's descriptor
-pub const PROBE_NAMES: [&str; 26] = [
+pub const PROBE_NAMES: [&str; 33] = [
     "Report.acked", "Report.rtt", "ctl", "vctl", "loc", "Report.loss", "Report.sacked", "Report.inflight", "thresh",
     "Report.x", "k", "Report.one", "c1", "Report.two", "Report.three", "c2", "Report.m", "a", "b", "c",
-    "Cwnd", "Rate", "Micros", "Ack.bytes_acked", "Reported", "Report.m2",
+    "Cwnd", "Rate", "Micros", "Ack.bytes_acked", "Reported", "Report.m2", "Report.z1", "Report.z2", "t", "Report.z3", "Report.z4", "kk", "Kk",
 ];
 pub const EXTRA_FIELD_NAMES: [&str; 6] = ["__eventFlag", "__shouldReport", "nosuch", "Flow.was_timeout", "__x", ""];
 
@@ -645,16 +650,16 @@ fn gen_fields(r: &mut Rng, n: usize) -> String {
 fn gen_ctl_fields(r: &mut Rng, prog: &str, n: usize) -> String {
     // mostly controllable names of that program
     let pool: &[&str] = match prog { "alpha" | "alpha2" => &["ctl", "vctl", "Cwnd", "Rate"], "beta" => &["thresh", "Cwnd"], "gamma" => &["k", "Rate"],
-        "delta" => &["a", "b", "c", "Cwnd", "Rate"], "epsilon" => &["a", "b", "c", "ctl", "Rate"], _ => &["c1", "c2", "Cwnd"] };
+        "delta" => &["a", "b", "c", "Cwnd", "Rate"], "epsilon" => &["a", "b", "c", "ctl", "Rate"], "theta" => &["t", "Cwnd"], "kappa" => &["kk", "Kk", "Rate"], _ => &["c1", "c2", "Cwnd"] };
     if n == 0 { return "-".into(); }
     (0..n).map(|_| format!("{}={:x}", if r.chance(9, 10) { *r.pick(pool) } else { *r.pick(&PROBE_NAMES) }, r.u32b())).collect::<Vec<_>>().join("&")
 }
 fn gen_cmds(r: &mut Rng, report: bool) -> String {
     let n = r.below(4);
     if n == 0 { return "-".into(); }
-    let progs = ["alpha", "beta", "gamma", "dup", "delta", "alpha2", "epsilon", "nosuchprog", "bad"];
+    let progs = ["alpha", "beta", "gamma", "dup", "delta", "alpha2", "epsilon", "eta", "theta", "iota", "kappa", "nosuchprog", "bad"];
     (0..n).map(|_| {
-        let p = if r.chance(5, 6) { *r.pick(&progs[..7]) } else { *r.pick(&progs) };
+        let p = if r.chance(5, 6) { *r.pick(&progs[..11]) } else { *r.pick(&progs) };
         let k = if report { r.below(6) } else { r.below(3) };
         let nf = r.below(4) as usize;
         match k {
@@ -668,7 +673,7 @@ fn gen_cmds(r: &mut Rng, report: bool) -> String {
 
 fn report_fields_of(p: usize) -> &'static [&'static str] {
     match p { 0 | 7 => &["Report.acked", "Report.rtt"], 1 => &["Report.loss", "Report.sacked", "Report.inflight"], 2 => &["Report.x"],
-        3 => &["Report.one"], 4 => &["Report.two", "Report.three"], 8 => &["Report.m2"], _ => &["Report.m"] }
+        3 => &["Report.one"], 4 => &["Report.two", "Report.three"], 8 => &["Report.m2"], 9 => &["Report.z1"], 10 => &["Report.z2"], 11 => &["Report.z3"], 12 => &["Report.z4"], _ => &["Report.m"] }
 }
 
 /// Structured generation: tracks which (address, flow id) pairs are live so that most
@@ -693,6 +698,9 @@ pub fn gen_case(r: &mut Rng, adversarial: bool, faults: bool) -> String {
         for p in [0usize, 1, 2, 3, 4, 6] { if r.chance(1, 2) { ps.push(p); } }
         if r.chance(1, 3) { ps.push(7); }
         if r.chance(1, 2) { ps.push(8); }
+        // now and then (nearly) the whole table: more than ten programs in one runtime
+        if r.chance(1, 6) { for p in [0usize, 1, 2, 3, 6, 7, 8, 9, 10, 11, 12] { if !ps.contains(&p) && !(p == 3 && ps.contains(&4)) { ps.push(p); } } }
+        else { for p in [9usize, 10, 11, 12] { if r.chance(1, 5) { ps.push(p); } } }
         if ps.contains(&3) && ps.contains(&4) { ps.retain(|x| *x != 4); }   // one map cannot hold a name twice
         if *i == 0 && ps.is_empty() { ps.push(0); }
         if r.chance(1, 80) { ps.push(5); }
@@ -729,10 +737,19 @@ pub fn gen_case(r: &mut Rng, adversarial: bool, faults: bool) -> String {
     let addrs: Vec<u64> = if adversarial && r.chance(1, 3) { colliding_addrs().to_vec() } else { vec![1u64, 2, 3] };
     let sids = [1u32, 2, 3, 0x10];
     let algnames = ["-", "-", "reno", "renoX", LONG63, LONG63, "cubic", "dflt", "ren", "renoXY", "zzz", "", "renoreno0123456789012345678901234567890123456789012345678901234", &LONG63[..62],
-        "reno~0a", "reno~20", "renoX~09", "~20reno", "dflt~0d~0a", "Reno", "reno~00x"];
+        "reno~0a", "reno~20", "renoX~09", "~20reno", "dflt~0d~0a", "Reno", "reno~00x", "RENO", "tcp_reno", "tcp_renoX", "reno.", "ccp_reno", "reno_"];
     let mut evs = vec![];
     let mut live: Vec<(u64, u32)> = vec![];
     let mut sends_guess = 0usize;
+    let mut addrs = addrs;
+    if adversarial && r.chance(1, 25) {
+        // a crowd: two datapaths with live flows, some seventy that only announce themselves, newcomers later
+        evs.push("D1:RDY:1".to_string()); evs.push(format!("D1:CR:1:-:{:x}:5a8", r.u32b())); live.push((1, 1));
+        evs.push(format!("D2:CR:2:reno:{:x}:5a8", r.u32b())); live.push((2, 2));
+        let crowd = r.range(60, 72);
+        for k in 0..crowd { evs.push(format!("D{:x}:{}", 0x100 + k, if k % 9 == 4 { format!("CR:7:-:{:x}:5a8+MS:7:xf0000001:0:-", r.u32b()) } else { format!("RDY:{:x}", k) })); }
+        addrs.extend([0x300u64, 0x301, 0x100, 0x101]);
+    }
     for _ in 0..nev {
         if r.chance(1, 20) { evs.push("E".to_string()); continue; }
         if r.chance(1, 60) { evs.push("S".to_string()); continue; }
